@@ -343,7 +343,76 @@ func runC10(c *Ctx) {
 				}
 			})
 			c.Check(okCopy, "extension order keeps the topological positions", p.Pos(co.Pos()), "order[i] derives from sorted[i]", "the computed order is not a position-preserving copy of the topological order")
-			// returned order is that slice and is what Extensions stores
+			// the copy is the only writer of the order: the slice is not handed to anything that could permute it
+			var mk *ssa.MakeSlice
+			allInstrs(co, func(in ssa.Instruction) {
+				if s, ok := in.(*ssa.Store); ok {
+					if dst, ok := s.Addr.(*ssa.IndexAddr); ok {
+						if m, ok := strip(dst.X).(*ssa.MakeSlice); ok {
+							mk = m
+						}
+					}
+				}
+			})
+			if mk != nil {
+				elemStores, leak := 0, ""
+				for _, r := range *mk.Referrers() {
+					switch x := r.(type) {
+					case *ssa.IndexAddr:
+						for _, rr := range *x.Referrers() {
+							if _, ok := rr.(*ssa.Store); ok {
+								elemStores++
+							}
+						}
+					case *ssa.Return, *ssa.DebugRef:
+					case *ssa.Call:
+						if builtinName(x) != "len" && builtinName(x) != "cap" {
+							leak = "passed to a call at " + p.Pos(x.Pos())
+						}
+					case *ssa.Store:
+						// spilled because a closure captures it
+						if x.Val == ssa.Value(mk) {
+							leak = "captured / stored at " + p.Pos(x.Pos())
+						}
+					default:
+						leak = fmt.Sprintf("used by %T at %s", r, p.Pos(r.Pos()))
+					}
+				}
+				c.Check(leak == "" && elemStores == 1, "extension order is written only by the position-preserving copy", p.Pos(mk.Pos()), "one element store, otherwise only returned",
+					"the computed order is modified after it was copied from the topological sort ("+leak+fmt.Sprintf(", %d element stores", elemStores)+"): re-sorting or patching it can put a dependent extension before the extension it depends on")
+			}
+			// and the stored order is never permuted later: extensionIDs has a single writer and is never handed to sort/slices
+			if extT != nil {
+				for _, fn := range p.AllSrcFuncs(epk) {
+					for _, ci := range calls(fn, func(ci ssa.CallInstruction) bool {
+						f := calleeOf(ci)
+						if f == nil || f.Pkg() == nil || (f.Pkg().Path() != "sort" && f.Pkg().Path() != "slices") {
+							return false
+						}
+						for _, a := range ci.Common().Args {
+							v := strip(a)
+							if mi, ok := v.(*ssa.MakeInterface); ok {
+								v = strip(mi.X)
+							}
+							if u, ok := v.(*ssa.UnOp); ok && u.Op == token.MUL && isFieldAccess(u.X, extT, "extensionIDs") {
+								return true
+							}
+						}
+						return false
+					}) {
+						c.Bad("stored extension order is never re-sorted", p.Pos(ci.Pos()), "extensionIDs is handed to "+calleeOf(ci).FullName()+": the dependency order is lost")
+					}
+					for _, st := range fieldStores(fn, extT, "extensionIDs") {
+						_, okSrc := strip(st.Val).(*ssa.MakeSlice) // the empty initial value
+						for v := range backSlice(st.Val) {
+							if call, ok := v.(*ssa.Call); ok && staticCalleeFn(call) == co {
+								okSrc = true
+							}
+						}
+						c.Check(okSrc, "Extensions.extensionIDs is assigned from the computed order in "+fnName(fn), p.Pos(st.Pos()), "value is computeOrder's result", "the stored extension order does not come from the dependency-order computation")
+					}
+				}
+			}
 		}
 	}
 
